@@ -1,6 +1,5 @@
 (* CacheTame.v — the tame states (all stored names normalised and non-empty) are closed under
-   the regular operations: no empty path component, no insertion at the root path, and a rename
-   target whose last name is already in normal form.  In particular [step] never answers
+   the regular operations: no empty path component and no insertion at the root path.  In particular [step] never answers
    RUnmodelled along a regular sequence. *)
 From Coq Require Import NArith List Bool Lia.
 From CS Require Import Sx Str CacheModel CacheProofs CacheInv CacheLaws.
@@ -32,7 +31,7 @@ Definition nonnil (p : list N) : bool := match p with [] => false | _ => true en
 Definition op_regular (cf : cfg) (x : op) : bool :=
   match x with
   | OCreate p _ _ | OMkdir p _ _ | OSetOid p _ _ | OUpdate p _ _ _ _ => path_ok p && nonnil p
-  | ORename _ q => path_ok q && nonnil q && N.eqb (cf_fold cf (last q 0%N)) (last q 0%N)
+  | ORename _ q => path_ok q && nonnil q
   | ODelete _ _ | OSetMeta _ _ _ => true
   end.
 
@@ -198,7 +197,7 @@ Section Tame.
     destruct x as [p o m|p o m|p q|o p|p o d|p d o m keep|m o p]; simpl in Hr.
     - apply regular_split in Hr as [H1 H2]. apply make_node_tame; auto.
     - apply regular_split in Hr as [H1 H2]. apply make_node_tame; auto.
-    - apply andb_true_iff in Hr as [Hr Hl]. apply regular_split in Hr as [H1 H2]. apply N.eqb_eq in Hl.
+    - apply regular_split in Hr as [H1 H2].
       unfold op_rename. destruct (loc_path cf c p) as [|rp|g gn] eqn:Ep.
       + apply delete_loc_tame. exact Ht.
       + destruct rp as [|n rp]; [exact Ht|].
@@ -207,10 +206,13 @@ Section Tame.
         assert (HI1 : Inv c1).
         { pose proof (delete_loc_spec c (LTree (n :: rp))) as [_ [_ H]]. apply H. exact HI. }
         assert (Ht1 : tame cf c1 = true) by (apply (delete_loc_tame c (LTree (n :: rp))); exact Ht).
-        apply insert_node_tame; auto.
+        apply insert_node_tame.
         * apply delete_loc_spec. exact HI1.
         * apply delete_loc_tame. exact Ht1.
         * exact (all_nodes_lookup _ _ _ _ Ht El).
+        * apply path_ok_map. exact H1.
+        * apply map_nonnil. exact H2.
+        * rewrite last_map by exact H2. apply Hfold.
       + apply delete_loc_tame. exact Ht.
     - destruct (get_node cf c o p); [|exact Ht]. apply delete_loc_tame. exact Ht.
     - apply regular_split in Hr as [H1 H2]. unfold op_set_oid.
